@@ -34,3 +34,19 @@ func TestC19Debug(t *testing.T) {
 		t.Logf("FAIL %s: %s", f.sig, f.what)
 	}
 }
+
+// TestC19DebugN prints the datagram count of the default run of every quick
+// scenario, several times (development aid; needs C19_N=1).
+func TestC19DebugN(t *testing.T) {
+	if os.Getenv("C19_N") == "" {
+		t.Skip("C19_N not set")
+	}
+	scs := c19QuickScenariosForDebug()
+	for _, sc := range scs {
+		var ns []int
+		for i := 0; i < 6; i++ {
+			ns = append(ns, c19Exec(t, c19Case{Scn: sc}).ndgrams)
+		}
+		t.Logf("%+v: %v", sc, ns)
+	}
+}
